@@ -66,64 +66,87 @@ func liveStr(m map[string]string) string {
 	return b.String()
 }
 
-var c15Model = porcupine.Model{
-	Partition: func(h []porcupine.Operation) [][]porcupine.Operation {
-		by := map[int][]porcupine.Operation{}
-		for _, o := range h {
-			u := o.Input.(c15In).UID
-			by[u] = append(by[u], o)
+func c15Partition(h []porcupine.Operation) [][]porcupine.Operation {
+	by := map[int][]porcupine.Operation{}
+	for _, o := range h {
+		u := o.Input.(c15In).UID
+		by[u] = append(by[u], o)
+	}
+	var out [][]porcupine.Operation
+	for _, v := range by {
+		out = append(out, v)
+	}
+	return out
+}
+
+// c15Step is the deterministic part of the model: get-or-create with a cap.
+func c15Step(s c15State, i c15In, o c15Out) (bool, c15State) {
+	switch i.Op {
+	case "setcap":
+		s.Cap = i.Val
+		return true, s
+	case "setok":
+		s.OK = i.Val == 1
+		return true, s
+	case "close":
+		m := liveMap(s.Live)
+		delete(m, fmt.Sprint(i.SID))
+		s.Live = liveStr(m)
+		return true, s
+	case "hs":
+		m := liveMap(s.Live)
+		sid := fmt.Sprint(i.SID)
+		if k, ok := m[sid]; ok {
+			return o.Key == k, s // joining a live session must return its key
 		}
-		var out [][]porcupine.Operation
-		for _, v := range by {
-			out = append(out, v)
-		}
-		return out
-	},
-	Init: func() interface{} { return c15State{Cap: -1, OK: true} },
-	Step: func(st, in, out interface{}) (bool, interface{}) {
-		s := st.(c15State)
-		i := in.(c15In)
-		o := out.(c15Out)
-		switch i.Op {
-		case "setcap":
-			s.Cap = i.Val
-			return true, s
-		case "setok":
-			s.OK = i.Val == 1
-			return true, s
-		case "close":
-			m := liveMap(s.Live)
-			delete(m, fmt.Sprint(i.SID))
+		if len(m) < s.Cap && s.OK {
+			if o.Key == "" {
+				return false, s // must be admitted
+			}
+			for _, k := range m {
+				if k == o.Key {
+					return false, s // a new session must get a fresh key
+				}
+			}
+			m[sid] = o.Key
 			s.Live = liveStr(m)
 			return true, s
-		case "hs":
-			m := liveMap(s.Live)
-			sid := fmt.Sprint(i.SID)
-			if k, ok := m[sid]; ok {
-				return o.Key == k, s // joining a live session must return its key
-			}
-			if len(m) < s.Cap && s.OK {
-				if o.Key == "" {
-					return false, s // must be admitted
-				}
-				for _, k := range m {
-					if k == o.Key {
-						return false, s // a new session must get a fresh key
-					}
-				}
-				m[sid] = o.Key
-				s.Live = liveStr(m)
-				return true, s
-			}
-			return o.Key == "", s // cap reached or no credit / expired: must be refused
 		}
-		return false, s
+		return o.Key == "", s // cap reached or no credit / expired: must be refused
+	}
+	return false, s
+}
+
+// The model is nondeterministic in one respect: while a user is without credit or past expiry, the
+// server's periodic usage upload cuts that user off (property C16) at a moment the history does
+// not show; before any operation of such a user all of its sessions may therefore have gone.
+var c15ND = porcupine.NondeterministicModel{
+	Partition: c15Partition,
+	Init:      func() []interface{} { return []interface{}{c15State{Cap: -1, OK: true}} },
+	Step: func(st, in, out interface{}) []interface{} {
+		s := st.(c15State)
+		cands := []c15State{s}
+		if !s.OK && s.Live != "" {
+			c := s
+			c.Live = ""
+			cands = append(cands, c)
+		}
+		var res []interface{}
+		for _, c := range cands {
+			if ok, n := c15Step(c, in.(c15In), out.(c15Out)); ok {
+				res = append(res, n)
+			}
+		}
+		return res
 	},
+	Equal: func(a, b interface{}) bool { return a.(c15State) == b.(c15State) },
 	DescribeOperation: func(in, out interface{}) string {
 		i := in.(c15In)
 		return fmt.Sprintf("%s(uid%d, sid %d, %d) -> %q", i.Op, i.UID, i.SID, i.Val, out.(c15Out).Key)
 	},
 }
+
+var c15Model = c15ND.ToModel()
 
 type c15Conn struct {
 	uid int
